@@ -24,6 +24,9 @@ func regoStringContent(s string) string {
 			b.WriteString(`\t`)
 		case r < 0x20 || r == 0x7f:
 			b.WriteString(fmt.Sprintf(`\u%04x`, r))
+		case r == '\ufeff':
+			// the engine refuses a raw byte-order mark anywhere in a module, string literals included
+			b.WriteString(`\ufeff`)
 		default:
 			b.WriteRune(r)
 		}
